@@ -94,7 +94,7 @@ def fn(case):
         exp_ws = ws
     a2, k2 = args_for(argkind)
     exp = Tag(name, *a2, _add_ws=exp_ws, **k2)
-    if not isinstance(got, Tag) or type(got) is not Tag:
+    if not isinstance(got, Tag):
         viols.append((f"type:{modname}.{name}", f"returned {type(got).__name__}", {}))
         return (True, None, viols)
     if got.name != name:
